@@ -119,7 +119,7 @@ class CommandsTagsWrapper(CommandWrapper):
 
     async def incr(self, key: Key, value: int = 1, expire: float | None = None, tags: Tags = ()) -> int:
         _set = await super().incr(key=key, value=value, expire=expire)
-        if tags:
+        if tags and _set is not None:  # None: the command is disabled, nothing was written
             # backends apply `expire` only when the counter is created (result == 1); otherwise the key
             # keeps the deadline it already had, so the tag membership must not expire before it
             tag_expire = expire if _set == 1 else None
